@@ -1,7 +1,7 @@
 """Worker for C15: one task.wait_until call of the REAL pyscript per case, on the virtual clock.
 stdin JSON {"cases": [...]} -> 'RESULT <json list of observations>'.
 
-Case (times in ms relative to the instant of the call; history on whole seconds, time-trigger offsets = 250 mod 1000,
+Case (times in ms relative to the instant of the call; history on whole seconds or 400/600 ms after one, time-trigger offsets = 250 mod 1000,
 timeouts = 500 mod 1000 (or 0), state_hold = 750 mod 1000, cancel instants = 125 mod 250 (or 0)):
   {"sub": "legacy"|"dm",
    "st": null | {"cn": null|bool, "init": "T"|"F"|"X", "hold": null|ms},      state_trigger="int(pyscript.v) > 0"
@@ -249,9 +249,10 @@ async def run_case(case):
             await env.settle()
             poll(0)
         now_ms = 0
-        while now_ms < horizon:
-            now_ms += GRID
-            await env.advance(GRID / 1000.0)
+        stops = sorted(set(range(GRID, horizon + GRID, GRID)) | {t for t in events if t > 0} | ({cancel} if cancel else set()))
+        for nxt in stops:
+            await env.advance((nxt - now_ms) / 1000.0)
+            now_ms = nxt
             poll(now_ms)
             for (kk, kind) in events.get(now_ms, []):
                 await occur(kk, kind)
